@@ -1,6 +1,8 @@
 #!/usr/bin/env python3
-"""MANIFEST.setup_cmd: build the framework from files on disk only (offline)."""
-import sys
+"""MANIFEST.setup_cmd: build the framework from files on disk only (offline).
+Failures of single proof modules are reported but do not fail the setup: the check of the
+affected property reports them itself."""
+import json, sys
 from pathlib import Path
 sys.path.insert(0, str(Path(__file__).resolve().parent))
 import vlib, gen_consts
@@ -9,9 +11,12 @@ try:
     print("regenerated:", gen_consts.generate(None))
 except Exception as e:  # the checks report this themselves
     print("generation problem:", e)
-ok, out = vlib.lake_build()
-print(out[-3000:])
+ok, out = vlib.lake_build(("ssdriver",))
+print(out[-2000:])
 if not ok:
     sys.exit(1)
-for fl in ("asan",):
-    print("repo build:", vlib.build_repo(fl))
+props = [c["property_id"] for c in json.loads((vlib.ROOT / "MANIFEST.json").read_text())["checks"]]
+for p in props:
+    ok, out = vlib.lake_build((f"SSVerif.Props.{p}",))
+    print(p, "ok" if ok else "FAILED\n" + out[-1500:])
+print("repo build:", vlib.build_repo("asan"))
